@@ -5,6 +5,7 @@
 From Coq Require Import List String NArith ZArith Bool.
 From AM Require Import Rust.Ast Gen.Entry Ref.Load Ref.Sys Proofs.SysGrows Proofs.SysStatic Proofs.SysMap
   Proofs.SysReload Proofs.SysLedger Tie.Erasure Tie.Entry Tie.Maps Rust.Script Gen.Anycache Tie.Records.
+From AM Require Gen.Cell Tie.Cell.
 Import ListNotations.
 
 Theorem C13_casts_are_guarded_by_the_type_id :
@@ -105,3 +106,8 @@ Proof. vm_compute. repeat split. Qed.
    the loser of a creation race is dropped by insert, it never overwrites the winner *)
 Theorem C13_code_add_asset_loads_then_inserts : add_asset_wf Gen.Anycache.RawCache_add_asset = true.
 Proof. exact add_asset_loads_then_inserts. Qed.
+
+(* the lazily initialised wrapper drops the arm it holds, whatever the two types are: the seed when
+   never initialised, the value otherwise -- no shortcut on drop glue *)
+Theorem C13_code_cell_drops_the_arm_it_holds : AM.Tie.Cell.drop_wf AM.Gen.Cell.OnceInitCell_drop = true.
+Proof. exact (proj2 (proj2 (proj2 (proj2 AM.Tie.Cell.cell_as_modelled)))). Qed.
